@@ -38,11 +38,26 @@ Definition fs_v (v : val) : fs :=
                            | _ => acc end) [] (get_l v).
 
 
-Definition dprog_of (chunk : nat) : op -> dprog := disk_prog nc_enc_env nc_dec_env nc_enc_meta nc_dec_meta chunk.
+(* the behaviour of the asynchronous writes in the runs: a write of n bytes to temp file t at offset
+   off reports an error when em > 0 and (t + off) mod em = er, stores only (n+1)/2 bytes when
+   m > 0 and (t + off) mod m = r, and everything otherwise *)
+Definition rule_fault (m r em er : N) (t off : N) (n : nat) : option nat :=
+  if (negb (em =? 0) && ((t + off) mod em =? er))%bool then None
+  else if (negb (m =? 0) && ((t + off) mod m =? r))%bool then Some (Nat.div2 (S n))
+  else Some n.
+
+(* VN chunk  or  VL [VN chunk; VN m; VN r; VN em; VN er] *)
+Definition wcfg_v (v : val) : wcfg :=
+  match v with
+  | VL [VN c; VN m; VN r; VN em; VN er] => mkW (N.to_nat c) (rule_fault m r em er)
+  | _ => full_writes (N.to_nat (get_n v))
+  end.
+
+Definition dprog_of (chunk : wcfg) : op -> dprog := disk_prog nc_enc_env nc_dec_env nc_enc_meta nc_dec_meta chunk.
 Definition dview (s : fs) (id : N) : option entry := disk_view nc_dec_env nc_dec_meta s id.
 
 (* sequential: per op its result and its command trace *)
-Fixpoint disk_run_tr (chunk : nat) (s : fs) (ops : list op) : fs * list (res * list dcmd) :=
+Fixpoint disk_run_tr (chunk : wcfg) (s : fs) (ops : list op) : fs * list (res * list dcmd) :=
   match ops with
   | [] => (s, [])
   | o :: ops' =>
@@ -53,7 +68,7 @@ Fixpoint disk_run_tr (chunk : nat) (s : fs) (ops : list op) : fs * list (res * l
   end.
 
 (* what a fresh DiskStorage reports: load() and get(id) for the ids asked *)
-Definition v_recover (chunk : nat) (s : fs) (ids : list N) : val :=
+Definition v_recover (chunk : wcfg) (s : fs) (ids : list N) : val :=
   VL [v_res (recover_load nc_enc_env nc_dec_env nc_enc_meta nc_dec_meta chunk s);
       VL (map (fun id => v_res (recover_get nc_dec_env nc_dec_meta s id)) ids);
       VL (map (fun id => v_view (dview s id)) ids)].
@@ -61,10 +76,10 @@ Definition v_recover (chunk : nat) (s : fs) (ids : list N) : val :=
 (* VL [VL ops; VL ids; VN chunk; init-fs] *)
 Definition e_disk (v : val) : val :=
   match v with
-  | VL [VL ops; ids; VN chunk; init] =>
+  | VL [VL ops; ids; chunk; init] =>
       match ops_v ops with
       | Some os =>
-          let ch := N.to_nat chunk in
+          let ch := wcfg_v chunk in
           let (s, xs) := disk_run_tr ch (fs_v init) os in
           VL [VL (map (fun xt => VL [v_res (fst xt); VL (map v_cmd (snd xt))]) xs);
               v_recover ch s (nums_v ids); v_fs s]
@@ -74,7 +89,7 @@ Definition e_disk (v : val) : val :=
   end.
 
 (* the scheduler of StoreCore.sched with a log of (thread, command) *)
-Fixpoint sched_log (chunk : nat) (sch : list nat) (s : fs) (ths : list disk_thread)
+Fixpoint sched_log (chunk : wcfg) (sch : list nat) (s : fs) (ths : list disk_thread)
   : fs * list disk_thread * list (nat * dcmd) :=
   match sch with
   | [] => (s, ths, [])
@@ -113,10 +128,10 @@ Fixpoint threads_v (l : list val) : option (list disk_thread) :=
    prefix of a schedule to get the state at that crash point) *)
 Definition e_sched (v : val) : val :=
   match v with
-  | VL [VL ths; VL sch; ids; VN chunk; init] =>
+  | VL [VL ths; VL sch; ids; chunk; init] =>
       match threads_v ths with
       | Some ts =>
-          let ch := N.to_nat chunk in
+          let ch := wcfg_v chunk in
           let '(s, ts', lg) := sched_log ch (map (fun x => N.to_nat (get_n x)) sch) (fs_v init) ts in
           VL [VL (map (fun ic => VL [VN (N.of_nat (fst ic)); v_cmd (snd ic)]) lg);
               VL (map v_thread ts'); v_recover ch s (nums_v ids); v_fs s]
@@ -126,7 +141,7 @@ Definition e_sched (v : val) : val :=
   end.
 
 (* the file system and the threads after each executed command of a schedule (crash points 1..n) *)
-Fixpoint sched_states (chunk : nat) (sch : list nat) (s : fs) (ths : list disk_thread) : list (fs * list disk_thread) :=
+Fixpoint sched_states (chunk : wcfg) (sch : list nat) (s : fs) (ths : list disk_thread) : list (fs * list disk_thread) :=
   match sch with
   | [] => []
   | i :: sch' =>
@@ -148,10 +163,10 @@ Fixpoint sched_states (chunk : nat) (sch : list nat) (s : fs) (ths : list disk_t
                                              VL [cleanup commands of each thread]]]; threads at the end] *)
 Definition e_crash_all (v : val) : val :=
   match v with
-  | VL [VL ths; VL sch; ids; VN chunk; init] =>
+  | VL [VL ths; VL sch; ids; chunk; init] =>
       match threads_v ths with
       | Some ts =>
-          let ch := N.to_nat chunk in
+          let ch := wcfg_v chunk in
           let sc := map (fun x => N.to_nat (get_n x)) sch in
           let s0 := fs_v init in
           let '(s, ts', lg) := sched_log ch sc s0 ts in
